@@ -1,6 +1,8 @@
 (* The sorted merge walk computes the set difference (property C19, C19_walk_is_set_difference).
    All lemmas are by induction on the two lists: no bound on their length. *)
-From Verif Require Import Base.Prelude Repl.Model Repl.Order.
+From Verif Require Import Base.Prelude.
+From Verif Require Import Repl.Model.
+From Verif Require Import Repl.Order.
 From Coq Require Import Sorting.Sorted Sorting.Permutation.
 
 Section WalkProofs.
